@@ -179,6 +179,14 @@ def field_models_2d(c, geom, layout):
         c.eq(f'{nm}:funvals_of_the_output_are_the_output_field', np.asarray(oa.funvals), L @ U @ R)
         S = model.forward(Samples(np.stack([p, 2 * p], axis=-1), gd))
         c.eq(f'{nm}:samples_column[1]', S.samples[:, 1], 2 * spec)
+        # the same collection as function values (fields), and as function values in VECTOR form (Samples.funvals.vector): the same outputs
+        SP = Samples(np.stack([p, 2 * p], axis=-1), gd)
+        for form, coll in (('function_values', lambda: SP.funvals), ('function_values_in_vector_form', lambda: SP.funvals.vector)):
+            try: Cc = coll()
+            except NotImplementedError: continue                        # (the geometry does not offer this form)
+            So = model.forward(Cc)
+            c.holds(f'{nm}:samples_as_{form}:sample_collection_out', isinstance(So, Samples) and So.samples.shape == (mx * my, 2), note=str(getattr(getattr(So, 'samples', None), 'shape', None)))
+            c.eq(f'{nm}:samples_as_{form}:column[1]', So.samples[:, 1], 2 * spec)
         g = model.gradient(d, p)
         c.eq(f'{nm}:gradient_is_the_parameter_vector_of_the_adjoint_field', np.asarray(g), gspec)
         if nm == 'LinearModel':
